@@ -38,4 +38,37 @@ def setHashM (L : Nat) (a : Agg) (v : Bytes) : Agg :=
   let nv := Spec.stripTN (dropLeading 0x23 v)
   guardedVoid (·.buf.length) L (fun s => some (updateBaseHash s (Spec.percentEncode Spec.inFragment nv))) a
 
+/-- `set_port(input)`; `dflt` = `scheme_default_port()` (none for non-special schemes and `file`) -/
+def setPortM (L : Nat) (isFile : Bool) (dflt : Option Nat) (a : Agg) (v : Bytes) : Agg × Bool :=
+  if cannotHaveCredentialsOrPort isFile a then (a, false)
+  else if v.isEmpty then (clearPort a, true)
+  else
+    let t := Spec.stripTN v
+    match t with
+    | [] => (a, true)
+    | c :: _ =>
+      if !isAsciiDigit c then (a, false)
+      else
+        let digits := t.takeWhile isAsciiDigit
+        let p := Spec.parseRadix 10 digits
+        if p > 65535 then (a, false)                 -- std::from_chars: result_out_of_range
+        else
+          -- parse_port: the scheme's default port is not stored
+          let a' := if dflt == some p then clearPort a else updateBasePort a p (Spec.natToDec p)
+          if a'.buf.length ≤ L then (a', true) else (a, false)
+
+/-- `has_credentials()` -/
+def hasCredentials (a : Agg) : Bool := hasNonEmptyUsername a || hasNonEmptyPassword a
+
+/-- the state-override part of `parse_scheme_with_colon<true>` once the new scheme `s` (lower-case, without ':')
+    has been scanned: the three refusals, `set_scheme`, default-port removal, then `set_protocol`'s limit check -/
+def setProtocolCoreM (L : Nat) (curSpecial curFile : Bool) (a : Agg) (s : Bytes) : Agg × Bool :=
+  if curSpecial != Spec.isSpecialScheme s then (a, false)
+  else if (hasCredentials a || a.port.isSome) && s == Spec.bFile then (a, false)
+  else if curFile && a.hs == a.he then (a, false)
+  else
+    let a1 := setScheme a s
+    let a2 := if a1.port.isSome && a1.port == Spec.defaultPort s then clearPort a1 else a1
+    if a2.buf.length ≤ L then (a2, true) else (a, false)
+
 end AdaVerif.Model.Agg
